@@ -1252,7 +1252,7 @@ def c11(idx: Index, rep: Report, tier: str) -> None:
             for t, o in guards_dominating(cfg, nd):
                 for a in guard_atoms(t.ast, o):
                     parts = a.split(" == ")
-                    if len(parts) == 2 and all(p.isidentifier() for p in parts) and parts[0] != parts[1] and not any(p in ("None", "True", "False") for p in parts):
+                    if len(parts) == 2 and all(p.isidentifier() or p.startswith("args[") for p in parts) and parts[0] != parts[1] and not any(p in ("None", "True", "False") for p in parts):
                         same = True
             if not same:
                 continue
